@@ -62,6 +62,10 @@ def main(argv=None):
                 doc = json.load(f)
             case = core.unjson(doc["case"])
             msgs = mod.replay(case)
+            if not msgs and doc.get("shard"):
+                # the case alone does not reproduce: state carried over from earlier cases of its shard?  re-run the shard
+                core.quiet_logging()
+                msgs = core.replay_shard(doc)
             if msgs:
                 for m in msgs:
                     print("replay: %s" % m)
